@@ -21,6 +21,9 @@ type c05Sched struct {
 	J    int    `json:"j,omitempty"`     // cpr: ordinal of the cursor query
 	K    int    `json:"k,omitempty"`     // cpr: number of tokens delivered as type-ahead
 	Ord  string `json:"order,omitempty"` // cpr: before | same-before | same-after | after
+	// cpr: tokens holding a multi-byte character are delivered in two steps, cut after the
+	// first byte of that character, so that type-ahead may end in the middle of a character
+	Split bool `json:"split,omitempty"`
 }
 
 type c05Case struct {
@@ -128,9 +131,30 @@ func c05Gen(r *rand.Rand, tier string, idx int) any {
 		nc = 8
 	}
 	for k := 0; k < nc; k++ {
-		c.Scheds = append(c.Scheds, c05Sched{Kind: "cpr", J: 1 + r.Intn(len(c.Tokens)+1), K: 1 + r.Intn(3), Ord: pick(r, []string{"before", "same-before", "same-after", "after"})})
+		c.Scheds = append(c.Scheds, c05Sched{Kind: "cpr", J: 1 + r.Intn(len(c.Tokens)+1), K: 1 + r.Intn(3), Ord: pick(r, []string{"before", "same-before", "same-after", "after"}), Split: r.Intn(3) == 0})
 	}
 	return c
+}
+
+// splitMultibyte delivers every token that holds a multi-byte character in two steps, cut after
+// the first byte of its first such character.
+func splitMultibyte(tokens []string) []string {
+	var out []string
+	for _, t := range tokens {
+		cut := -1
+		for i := 0; i < len(t); i++ {
+			if t[i] >= 0xc0 && i+1 < len(t) {
+				cut = i + 1
+				break
+			}
+		}
+		if cut < 0 {
+			out = append(out, t)
+			continue
+		}
+		out = append(out, t[:cut], t[cut:])
+	}
+	return out
 }
 
 // baseCuts are the token boundaries.
@@ -302,6 +326,9 @@ func c05Run(env *fw.Env, raw json.RawMessage) fw.Outcome {
 		switch sc.Kind {
 		case "cpr":
 			chunks = c.Tokens
+			if sc.Split {
+				chunks = splitMultibyte(c.Tokens)
+			}
 		default:
 			cuts := sc.Cuts
 			if vi {
@@ -339,10 +366,12 @@ func c05Run(env *fw.Env, raw json.RawMessage) fw.Outcome {
 			// read (no cursor report around it) gives the same different outcome, the cursor
 			// report has nothing to do with it: the case is judged as that plain schedule.
 			var eq []string
-			if vo.N > 1 && vo.From >= 0 && vo.From+vo.N <= len(c.Tokens) && vo.Coupled < 200 {
-				eq = append(eq, c.Tokens[:vo.From]...)
-				eq = append(eq, strings.Join(c.Tokens[vo.From:vo.From+vo.N], ""))
-				eq = append(eq, c.Tokens[vo.From+vo.N:]...)
+			if vo.N > 1 && vo.From >= 0 && vo.From+vo.N <= len(chunks) && vo.Coupled < 200 {
+				eq = append(eq, chunks[:vo.From]...)
+				eq = append(eq, strings.Join(chunks[vo.From:vo.From+vo.N], ""))
+				eq = append(eq, chunks[vo.From+vo.N:]...)
+			} else if sc.Split && vo.N == 1 {
+				eq = append(eq, chunks...) // nothing joined: the plain schedule is the split one
 			}
 			explained := false
 			if eq != nil {
